@@ -162,6 +162,6 @@ static void construct(slot_t *s, int si, int form, int r)
     if (!o) { m_take(s, NULL, 0); return; }
     if (!IS_MY_CLASS(o)) vh_fail(key(opn, "class"), "constructed object is not of class " CLASSNAME);
     check_obj(s, opn);
-    vh_cov(vh_mix(vh_mix(0xc7, (uint64_t) (form * 4 + r * 2 + re)), (uint64_t) state_class(s)));
+    COV(vh_mix(vh_mix(0xc7, (uint64_t) (form * 4 + r * 2 + re)), (uint64_t) state_class(s)));
 }
 #endif
